@@ -150,7 +150,7 @@ Vector<std::complex<T>> permanent_laplace_cpp(
         int *gcode = gcode_counter.get();
 
         // calculate the initial column sum and binomial coefficient
-        int binomial_coeff = 1;
+        int64_t binomial_coeff = 1;
 
         Matrix<TComplex> colsum(1, cols.size());
         std::uninitialized_copy_n(A.data, colsum.size(), colsum.data);
@@ -172,7 +172,7 @@ Vector<std::complex<T>> permanent_laplace_cpp(
             minus_signs_all += minus_signs;
 
             // update the binomial coefficient
-            binomial_coeff *= binomialCoeff<int>(row_mult_current, minus_signs);
+            binomial_coeff *= binomialCoeff<int64_t>(row_mult_current, minus_signs);
         }
 
         // variable to refer to the parity of the delta vector (+1 if even, -1 if odd)
